@@ -245,11 +245,16 @@ class VariableSizedTiles:
 
     def crop(self, roi: ROI) -> "VariableSizedTiles":
         roi = roi_normalise(roi, self.shape.yx)
+        if any(s.start < 0 for s in roi):
+            raise IndexError(f"Index {roi} is out of range")
         y, x = (ch[s.start : s.stop] for ch, s in zip(self.chunks, roi))
         return VariableSizedTiles((y, x))
 
     def __getitem__(self, idx: Union[SomeIndex2d, ROI]) -> Tuple[slice, slice]:
         idx = norm_slice_2d(idx, self.shape.yx)
+        if any(i.start < 0 for i in idx):
+            # negative offsets would wrap around the offsets array
+            raise IndexError(f"Index {idx} is out of range")
         y, x = (
             slice(int(a[i.start]), int(a[i.stop])) for a, i in zip(self._offsets, idx)
         )
@@ -264,7 +269,16 @@ class VariableSizedTiles:
         :raises: :py:class:`IndexError` when index is outside of ``[(0,0) -> .shape)``.
         """
         idx = iyx_(idx)
-        ny, nx = (int(a[i + 1]) - int(a[i]) for a, i in zip(self._offsets, idx.yx))
+
+        def _sz(a: np.ndarray, i: int) -> int:
+            n = len(a) - 1
+            if i < 0:  # numpy style index from the right
+                i = n + i
+            if 0 <= i < n:
+                return int(a[i + 1]) - int(a[i])
+            raise IndexError(f"Index {idx} is out of range")
+
+        ny, nx = map(_sz, self._offsets, idx.yx)
         return Shape2d(x=nx, y=ny)
 
     @property
